@@ -1,6 +1,7 @@
 import DracoProofs.Tagged
 import DracoProofs.SymbolComplete
 import Generated.Constants
+import DracoProofs.GeneratedCore
 /-
   C08 — rANS symbol entropy coder (`EncodeSymbols` / `DecodeSymbols`,
   src/draco/compression/entropy/{ans.h, rans_symbol_*.h, symbol_encoding.cc, symbol_decoding.cc}).
@@ -375,5 +376,32 @@ example : encodeSymbolsWith ProbOracle.exact .tagged 7 1 [3, 1, 4, 1, 5]
     encodeSymbolsWith ProbOracle.exact .raw 7 1 [3, 1, 4, 1, 5]
       = some [1, 3, 6, 3, 157, 25, 3, 205, 12, 205, 12, 205, 12, 4, 254, 55, 136, 128] := by
   constructor <;> decide +kernel
+
+/-! ## the source functions *are* the model functions
+
+  `Generated.*` (lean/Generated/Funcs.lean) is translated mechanically from clang's typed AST of /repo's
+  working tree on every run (tools/vlib/xlate.py). -/
+open Generated in
+/-- `ComputeRAnsUnclampedPrecision` is `3 n / 2` where the `int` product does not overflow -/
+theorem source_ransUnclampedPrecision_is_model (n : Int) (h0 : 0 ≤ n) (h1 : 3 * n < 2^31) :
+    ComputeRAnsUnclampedPrecision n = 3 * n / 2 := ComputeRAnsUnclampedPrecision_eq_model n h0 h1
+example : Generated.ComputeRAnsUnclampedPrecision 13 = 19 := by
+  rw [source_ransUnclampedPrecision_is_model _ (by decide) (by decide)]; decide
+
+open Generated in
+/-- `ComputeRAnsPrecisionFromUniqueSymbolsBitLength` is `ransPrecisionBits` -/
+theorem source_ransPrecision_is_model (n : Nat) (h1 : 3 * n < 2^31) :
+    ComputeRAnsPrecisionFromUniqueSymbolsBitLength n = (ransPrecisionBits n : Int) :=
+  ComputeRAnsPrecisionFromUniqueSymbolsBitLength_eq_model n h1
+example : Generated.ComputeRAnsPrecisionFromUniqueSymbolsBitLength (18 : Nat) = 20 := by
+  rw [source_ransPrecision_is_model _ (by decide)]; decide
+
+open Generated in
+/-- `MostSignificantBit` (gcc/clang: `31 ^ __builtin_clz(n)`) is `Nat.log2` for every non-zero `uint32_t`
+    (`bitLength n = MostSignificantBit n + 1`) -/
+theorem source_msb_is_log2 (n : Int) (hn : U32 n) (h0 : n ≠ 0) :
+    MostSignificantBit n = (Nat.log2 n.toNat : Int) := MostSignificantBit_eq_model n hn h0
+example : Generated.MostSignificantBit 256 = 8 := by
+  rw [source_msb_is_log2 _ (by decide) (by decide)]; decide
 
 end Draco
